@@ -84,7 +84,7 @@ func c10CheckRun(snaps []c10Snap, from int, rn uint32) int {
 //   4: START cancelled by a failing critical before_START_ACTIVITY+1 hook, START
 //   5: START, STOP whose tasks stop but a critical hook fails late (enter_CONFIGURED+1 or after_STOP_ACTIVITY+1):
 //      the run is over all the same - end stamps set, number gone -, then START again
-//verif:entry HarnessRunBracket unwind=96 preempt=0 reach=h0,h1,h2,h3,h4,h5 stub=github.com/AliceO2Group/Control/common/utils.TimeTrack nosched=github.com/AliceO2Group/Control/core/the.mu steps=6000000
+//verif:entry HarnessRunBracket unwind=96 conform=12 preempt=0 reach=h0,h1,h2,h3,h4,h5 stub=github.com/AliceO2Group/Control/common/utils.TimeTrack nosched=github.com/AliceO2Group/Control/core/the.mu steps=6000000
 func HarnessRunBracket() {
 	hist := vrt.IntRange("history", 0, 5)
 	rn1, rn2 := vrt.Uint32("rn1"), vrt.Uint32("rn2")
